@@ -17,6 +17,8 @@ var c08Atoms = []string{
 	"and", "or", "in", "true", "false", "null", "function", "λ", "True", "FALSE", "Null", "And", "IN", "Function",
 	"a", "$", "$x", "1", "0.", "1e", "1e+", "9e999", `"s"`, `'s'`, `"\u"`, `"\ud800"`, `"\q"`, "`n`", "`", "/r/", "/(/", "/r/x", `"`,
 	"é", "䑁", "😀", "\xff", "\n",
+	// tokens whose text looks like the placeholders of the error-message templates
+	`"{{"`, `"{{token}}"`, "`{{hint}}`",
 }
 
 var c08Reduced = []string{"[", "]", "(", ")", "{", "}", ".", ":", "?", "-", "*", "/", "|", "<", ">", "^", "!", "~", "=", "&",
